@@ -85,11 +85,12 @@ def main():
         for r in results:
             if r.rc != 0:
                 failed_chains.setdefault(meta[r.name][0], []).append(r)
-        split = []
+        split, dropped = [], []
         for chain, frs in failed_chains.items():
             total = sum(1 for n in meta if meta[n][0] == chain)
             if len(frs) == total and len({(fr.kind, (fr.last or {}).get("h")) for fr in frs}) == 1:
-                raise vlib.Infra("every replica of %s failed (%s): %s" % (chain, frs[0].kind, frs[0].err[-300:]))
+                dropped.append("every replica of %s failed (%s): %s" % (chain, frs[0].kind, frs[0].err[-200:]))
+                continue
             split.append((chain, frs))
         results = [r for r in results if r.rc == 0]
         # one replica per chain is also validated against the ledger specification
@@ -135,6 +136,8 @@ def main():
             "samples": [{"chain": c, "replicas": len(rs), "tables": sorted(rs[0].last.get("dump", {}))[:5]} for c, rs in list(by.items())[:3]],
             "replica_sets_disagreeing": len(seen), "mc": mcres,
         }, time.time() - t0, violations=len(seen), assumptions=["replicas run on the same machine and build"])
+        if dropped and not viol:
+            raise vlib.Infra("; ".join(dropped)[:600] + " - the other chains agree: no verdict")
         return 1 if viol else 0
     finally:
         shutil.rmtree(work, ignore_errors=True)
